@@ -60,3 +60,209 @@ use super::*;
         assert!(r.is_err());
         std::mem::forget(r);
     }
+
+// ---------------------------------------------------------------- C10 (Engine B): no panic, no huge allocation on forged size fields
+// Every reader entry point is driven with tiny files (< 200 bytes) of every container format whose size / count /
+// offset fields are forged to extreme values, under the matching hint and - with a broken signature - under every
+// hint.  Contract: a result or an error (no panic), and no single allocation request above 8 MiB.
+#[cfg(test)]
+pub(crate) mod c10_alloc {
+    use std::alloc::{GlobalAlloc, Layout, System};
+    use std::sync::atomic::{AtomicUsize, Ordering};
+
+    pub struct Tracking;
+    pub static MAX_REQUEST: AtomicUsize = AtomicUsize::new(0);
+    fn note(n: usize) {
+        let mut cur = MAX_REQUEST.load(Ordering::Relaxed);
+        while n > cur {
+            match MAX_REQUEST.compare_exchange(cur, n, Ordering::Relaxed, Ordering::Relaxed) {
+                Ok(_) => break,
+                Err(c) => cur = c,
+            }
+        }
+    }
+    unsafe impl GlobalAlloc for Tracking {
+        unsafe fn alloc(&self, l: Layout) -> *mut u8 {
+            note(l.size());
+            unsafe { System.alloc(l) }
+        }
+        unsafe fn alloc_zeroed(&self, l: Layout) -> *mut u8 {
+            note(l.size());
+            unsafe { System.alloc_zeroed(l) }
+        }
+        unsafe fn realloc(&self, p: *mut u8, l: Layout, new_size: usize) -> *mut u8 {
+            note(new_size);
+            unsafe { System.realloc(p, l, new_size) }
+        }
+        unsafe fn dealloc(&self, p: *mut u8, l: Layout) {
+            unsafe { System.dealloc(p, l) }
+        }
+    }
+    #[global_allocator]
+    static ALLOCATOR: Tracking = Tracking;
+}
+
+#[test]
+fn c10_forged_size_fields_no_panic_no_huge_allocation() {
+    use std::sync::atomic::Ordering;
+    let vals32: [u32; 8] = [0, 1, 4, 12, 0x0100_0000, 0x7fff_ffff, 0xffff_fff0, 0xffff_ffff];
+    let be = |v: u32| v.to_be_bytes().to_vec();
+    let le = |v: u32| v.to_le_bytes().to_vec();
+    let mut files: Vec<(&str, String, Vec<u8>)> = Vec::new(); // (mime, description, bytes)
+    for &a in &vals32 {
+        for &b in &vals32 {
+            // RIFF family: RIFF <size> <form> C2PA <size> payload
+            for (mime, form) in [("audio/wav", b"WAVE"), ("image/webp", b"WEBP"), ("video/avi", b"AVI ")] {
+                for chunk in [b"C2PA", b"LIST", b"fmt "] {
+                    let mut f = b"RIFF".to_vec();
+                    f.extend(le(a));
+                    f.extend_from_slice(form);
+                    f.extend_from_slice(chunk);
+                    f.extend(le(b));
+                    f.extend_from_slice(&[0u8; 12]);
+                    files.push((mime, format!("RIFF size={a:#x} {} size={b:#x}", String::from_utf8_lossy(chunk)), f));
+                }
+            }
+            // PNG: signature, IHDR, one chunk with a forged length
+            for ty in [b"caBX", b"iTXt", b"IDAT", b"IEND"] {
+                let mut f = vec![137u8, 80, 78, 71, 13, 10, 26, 10];
+                f.extend(be(a.min(13)));
+                f.extend_from_slice(b"IHDR");
+                f.extend_from_slice(&[0u8; 17]);
+                f.extend(be(b));
+                f.extend_from_slice(ty);
+                f.extend_from_slice(&[0u8; 16]);
+                files.push(("image/png", format!("PNG IHDR len={:#x} {} len={b:#x}", a.min(13), String::from_utf8_lossy(ty)), f));
+            }
+            // BMFF: ftyp box then a box with a forged size (and 64-bit largesize)
+            for ty in [b"uuid", b"moov", b"mdat", b"free"] {
+                let mut f = be(16);
+                f.extend_from_slice(b"ftypisom");
+                f.extend_from_slice(&[0, 0, 0, 0]);
+                f.extend(be(a));
+                f.extend_from_slice(ty);
+                f.extend(be(b));
+                f.extend(be(b));
+                f.extend_from_slice(&[0xd8, 0xfe, 0xc3, 0xd6, 0x1b, 0x0e, 0x48, 0x3c, 0x92, 0x97, 0x58, 0x28, 0x87, 0x7e, 0xc4, 0x81]);
+                f.extend_from_slice(&[0u8; 8]);
+                files.push(("video/mp4", format!("BMFF {} size={a:#x} largesize/hi={b:#x}", String::from_utf8_lossy(ty)), f));
+            }
+            // TIFF: header, IFD offset, entry count, one entry with forged count / offset
+            for order in [true, false] {
+                let w32 = |v: u32| if order { le(v) } else { be(v) };
+                let w16 = |v: u16| if order { v.to_le_bytes().to_vec() } else { v.to_be_bytes().to_vec() };
+                let mut f = if order { vec![0x49, 0x49, 0x2a, 0x00] } else { vec![0x4d, 0x4d, 0x00, 0x2a] };
+                f.extend(w32(8));
+                f.extend(w16((a & 0xffff) as u16));
+                f.extend(w16(0xcd41)); // C2PA tag
+                f.extend(w16(7));
+                f.extend(w32(b));
+                f.extend(w32(a));
+                f.extend_from_slice(&[0u8; 8]);
+                files.push(("image/tiff", format!("TIFF entries={:#x} count={b:#x} offset={a:#x}", a & 0xffff), f));
+            }
+            // JUMBF sidecar: jumb / jumd with forged sizes
+            {
+                let mut f = be(a);
+                f.extend_from_slice(b"jumb");
+                f.extend(be(b));
+                f.extend_from_slice(b"jumd");
+                f.extend_from_slice(&[0x63, 0x32, 0x70, 0x61, 0x00, 0x11, 0x00, 0x10, 0x80, 0x00, 0x00, 0xaa, 0x00, 0x38, 0x9b, 0x71, 0x03]);
+                f.extend_from_slice(b"c2pa\0");
+                f.extend_from_slice(&[0u8; 8]);
+                files.push(("application/c2pa", format!("JUMBF jumb size={a:#x} jumd size={b:#x}"), f));
+            }
+            // JPEG XL container
+            {
+                let mut f = vec![0x00, 0x00, 0x00, 0x0c, 0x4a, 0x58, 0x4c, 0x20, 0x0d, 0x0a, 0x87, 0x0a];
+                f.extend(be(a));
+                f.extend_from_slice(b"jumb");
+                f.extend(be(b));
+                f.extend_from_slice(&[0u8; 12]);
+                files.push(("image/jxl", format!("JXL box size={a:#x} inner={b:#x}"), f));
+            }
+        }
+        // JPEG: SOI + segment with forged length, APP11 JP header with forged LBox
+        for marker in [0xe1u8, 0xeb, 0xe0, 0xfe, 0xda] {
+            for len in [0u16, 1, 2, 8, 0xffff] {
+                let mut f = vec![0xff, 0xd8, 0xff, marker];
+                f.extend_from_slice(&len.to_be_bytes());
+                f.extend_from_slice(b"JP");
+                f.extend_from_slice(&[0, 1, 0, 0, 0, 1]);
+                f.extend(be(a));
+                f.extend_from_slice(b"jumb");
+                f.extend_from_slice(&[0u8; 16]);
+                f.extend_from_slice(&[0xff, 0xd9]);
+                files.push(("image/jpeg", format!("JPEG marker={marker:#x} len={len:#x} LBox={a:#x}"), f));
+            }
+        }
+        // MP3: ID3v2 header with a sync-safe size, one GEOB frame with a forged size
+        {
+            let mut f = b"ID3\x04\x00\x00".to_vec();
+            f.extend_from_slice(&[(a >> 21) as u8 & 0x7f, (a >> 14) as u8 & 0x7f, (a >> 7) as u8 & 0x7f, a as u8 & 0x7f]);
+            f.extend_from_slice(b"GEOB");
+            f.extend(be(a));
+            f.extend_from_slice(&[0u8; 14]);
+            files.push(("audio/mpeg", format!("ID3 size/GEOB size={a:#x}"), f));
+        }
+        // GIF: header, logical screen, application extension with forged sub-block sizes
+        {
+            let mut f = b"GIF89a".to_vec();
+            f.extend_from_slice(&[1, 0, 1, 0, 0, 0, 0]);
+            f.extend_from_slice(&[0x21, 0xff, 0x0b]);
+            f.extend_from_slice(b"C2PA_GIF");
+            f.extend_from_slice(&[0x01, 0x00, 0x00]);
+            f.push((a & 0xff) as u8);
+            f.extend_from_slice(&[0u8; 10]);
+            f.push(0x3b);
+            files.push(("image/gif", format!("GIF sub-block size={:#x}", a & 0xff), f));
+        }
+    }
+    files.push(("image/svg+xml", "SVG unterminated metadata".to_string(), b"<svg xmlns=\"http://www.w3.org/2000/svg\"><metadata><c2pa:manifest>AAAA".to_vec()));
+    let hints = ["image/jpeg", "image/png", "image/gif", "image/tiff", "audio/wav", "image/webp", "video/avi", "video/mp4", "audio/mpeg", "image/svg+xml", "image/jxl", "application/c2pa", "audio/flac"];
+    let limit = 8usize << 20;
+    let mut evals = 0usize;
+    let mut nontrivial = 0usize;
+    let mut counts: std::collections::BTreeMap<String, usize> = std::collections::BTreeMap::new();
+    let mut run = |mime: &str, desc: &str, bytes: &[u8], counts: &mut std::collections::BTreeMap<String, usize>| {
+        c10_alloc::MAX_REQUEST.store(0, Ordering::Relaxed);
+        let r = std::panic::catch_unwind(|| {
+            let _ = crate::Reader::from_context(crate::utils::test::test_context()).with_stream(mime, std::io::Cursor::new(bytes.to_vec()));
+        });
+        let peak = c10_alloc::MAX_REQUEST.load(Ordering::Relaxed);
+        let key = if r.is_err() {
+            Some(format!("untrusted_input.panic.{}", mime.replace('/', "_")))
+        } else if peak > limit {
+            Some(format!("untrusted_input.huge_allocation.{}", mime.replace('/', "_")))
+        } else {
+            None
+        };
+        if let Some(k) = key {
+            let c = counts.entry(k.clone()).or_insert(0);
+            *c += 1;
+            if *c <= 3 {
+                println!("VERIF-B-VIOLATION key={k} input={desc} ({} bytes) read as {mime}: largest single allocation request {peak} bytes{}", bytes.len(), if r.is_err() { ", PANIC" } else { "" });
+            }
+        }
+    };
+    for (mime, desc, bytes) in &files {
+        evals += 1;
+        nontrivial += 1;
+        run(mime, desc, bytes, &mut counts);
+    }
+    // broken signature (first byte flipped): the hint decides which parser sees the bytes
+    for (i, (_, desc, bytes)) in files.iter().enumerate() {
+        if i % 5 != 0 {
+            continue;
+        }
+        let mut b = bytes.clone();
+        b[0] ^= 0x55;
+        for h in hints {
+            evals += 1;
+            run(h, &format!("{desc} with broken signature"), &b, &mut counts);
+        }
+    }
+    println!("VERIF-B-SAMPLE RIFF size=0xffffffff C2PA size=0xffffffef (36 bytes) read as audio/wav must fail without a 4 GiB allocation");
+    println!("VERIF-B-SAMPLE violation classes this run: {:?}", counts);
+    println!("VERIF-B unit=io_utils test=c10_forged_size_fields_no_panic_no_huge_allocation evaluations={evals} nontrivial={nontrivial} exhaustive=true domain={} forged files < 200 bytes (RIFF/WAV/WEBP/AVI, PNG, BMFF, TIFF, JUMBF sidecar, JPEG XL, JPEG, MP3, GIF, SVG; size / count / offset fields from {{0,1,4,12,2^24,2^31-1,2^32-16,2^32-1}}) under their own hint, every 5th also with a broken signature under 13 hints; limit 8 MiB per allocation", files.len());
+}
